@@ -18,7 +18,7 @@ import (
 // nothing new from the tunnel's peer must leave the receiver's state digest and tun output unchanged.
 func TestC14_History(t *testing.T) {
 	nsSetT(t)
-	vk.Check(t, 150, func(rt *rapid.T) {
+	vk.Check(t, 800, func(rt *rapid.T) {
 		nsBubble(rt, func(rt *rapid.T, s *nsSim) {
 			h := nsRunHistory(rt, s, nsHistOpts{
 				pid:      "C14",
